@@ -51,6 +51,9 @@ COORD_PROFILE = {"n_moltypes": (1, 2), "n_entries": (1, 2), "max_molecules": 3, 
 def _base_op(g, prog, st, verif_seed, index):
     if prog == "gen_params":
         ff = ffgen.gen_ff(g)
+        if ff["links"] and g.random() < 0.4:
+            # an [ error ] level message of the force field on the first link (logged, nothing more)
+            ff["links"][0]["sections"]["error"] = [{"atoms": ["parameters of this link are provisional"], "params": [], "meta": {}}]
         rg = ffgen.gen_resgraph(g, ff, maxn=6)
         # (some output names have no extension: the file has to appear under exactly the name that was asked for)
         op = histgen.make_op(ff, rg, g, out=g.choice(["res/out.itp", "res/out.itp", "res/polymer", "res/PEO_1.5k"]))
